@@ -569,7 +569,7 @@ def config_type_mount_stream(ctx, res):
                 if resolved is not f:
                     res.violate("C16:ref-path", "an enumerated path of a schema that mounts a config type does not lead to the field", dict(case, path=p))
                     break
-        except Exception as e:  # noqa
+        except BaseException as e:  # noqa  (argparse leaves through SystemExit)
             res.violate("C16:ref-path", "naming the fields of a config type raised %s" % type(e).__name__, dict(case, error=str(e)[:120]))
 
 
